@@ -72,8 +72,10 @@ impl AuthData {
 #[derive(Serialize, Deserialize, Debug)]
 struct Cache {
     timeout: u64,
+    // verdict and the instant it stops being valid: the clean-up task below may run late (or early, for a
+    // pair that was stored again), so validity is decided from the instant, not from the entry being there
     #[serde(skip)]
-    data: Arc<Mutex<HashMap<(String, String), bool>>>,
+    data: Arc<Mutex<HashMap<(String, String), (bool, Option<std::time::Instant>)>>>,
 }
 
 impl Cache {
@@ -82,7 +84,12 @@ impl Cache {
     }
     pub async fn check(&self, user: &(String, String)) -> Option<bool> {
         let data = self.data.lock().await;
-        data.get(user).cloned()
+        match data.get(user) {
+            Some((verdict, expires)) if expires.map_or(true, |e| std::time::Instant::now() < e) => {
+                Some(*verdict)
+            }
+            _ => None,
+        }
     }
 
     pub async fn set(&self, key: &(String, String), value: bool) -> bool {
@@ -92,13 +99,17 @@ impl Cache {
         trace!("cache set: {} => {}", key.0, value);
         let key = (key.0.to_string(), key.1.to_string());
         let mut data = self.data.lock().await;
-        data.insert(key.clone(), value);
+        // None: a timeout too large to be represented never expires
+        let expires = std::time::Instant::now().checked_add(Duration::from_secs(self.timeout));
+        data.insert(key.clone(), (value, expires));
         let data = self.data.clone();
         let timeout = self.timeout;
         tokio::spawn(async move {
             tokio::time::sleep(Duration::from_secs(timeout)).await;
             let mut data = data.lock().await;
-            data.remove(&key);
+            if matches!(data.get(&key), Some((_, Some(e))) if *e <= std::time::Instant::now()) {
+                data.remove(&key);
+            }
             trace!("cache timeout: {}", key.0);
         });
         value
